@@ -209,11 +209,11 @@ OBJ = {
     "C07": {"modes": ["dual"], "mc": {"quick": [("dual_c8a2", "MCDual.tla", "MCDual_c8a2.cfg")], "thorough": [("dual_c8a2", "MCDual.tla", "MCDual_c8a2.cfg"), ("dual_c8a3", "MCDual.tla", "MCDual_c8a3.cfg"), ("dual_c12a2", "MCDual.tla", "MCDual_c12a2.cfg")]},
             "rule": "raw hashes of both capacities (run layouts of C06, runs needing exactly N/4 RLE symbols, runs ending at the capacity, random) turned into dual hashes by 7 routes (from_raw_form, From, init_from_raw_form into a dirty object, new_from_internals, new_from_internals_near_raw, str::parse, from_bytes); every route: validity, raw form (fresh and into a dirty destination), normalised part, texts, pairwise ==/cmp/Hash; normalize_in_place. non-trivial = raw hashes",
             "nontrivial": ("dual", "hashes")},
-    "C11": {"modes": ["hist", "ctor"], "mc": {"quick": [("objects", "MCObjects.tla", "MCObjects.cfg"), ("dual_c8a2", "MCDual.tla", "MCDual_c8a2.cfg")],
+    "C11": {"modes": ["hist", "ctor"], "gen_direction": True, "mc": {"quick": [("objects", "MCObjects.tla", "MCObjects.cfg"), ("dual_c8a2", "MCDual.tla", "MCDual_c8a2.cfg")],
                                               "thorough": [("objects", "MCObjects.tla", "MCObjects.cfg"), ("dual_c8a2", "MCDual.tla", "MCDual_c8a2.cfg")]},
-            "rule": "histories over 12 typed object slots (two per type): every operation of the conversion graph from a fresh value into a destination that holds the longest possible content, followed by every operation that reads the written slot; random histories of 50..200 steps (set from internals, parse, generator output, 60 operations incl. into_mut_*, init_from_raw_form, try_into_mut_short, in-place normalisation); after every step is_valid / full_eq against a rebuilt object / {:?} / text of the written slot. Constructor calls (4 plain + 2 dual constructors x 6 types) with one contract clause violated at a time. non-trivial = history steps + constructor calls aimed at a clause",
+            "rule": "BOTH DIRECTIONS: behaviours generated by TLC from GenObj.tla (the slot machine walked by -simulate, values from a pool on the representation borders) replayed on real objects, and histories over 12 typed object slots (two per type): every operation of the conversion graph from a fresh value into a destination that holds the longest possible content, followed by every operation that reads the written slot; random histories of 50..200 steps (set from internals, parse, generator output, 60 operations incl. into_mut_*, init_from_raw_form, try_into_mut_short, in-place normalisation); after every step is_valid / full_eq against a rebuilt object / {:?} / text of the written slot. Constructor calls (4 plain + 2 dual constructors x 6 types) with one contract clause violated at a time. non-trivial = history steps + constructor calls aimed at a clause",
             "nontrivial": ("hist", "steps")},
-    "C15": {"modes": ["hist"], "mc": {"quick": [("objects", "MCObjects.tla", "MCObjects.cfg")], "thorough": [("objects", "MCObjects.tla", "MCObjects.cfg"), ("dual_c8a2", "MCDual.tla", "MCDual_c8a2.cfg")]},
+    "C15": {"modes": ["hist"], "gen_direction": True, "mc": {"quick": [("objects", "MCObjects.tla", "MCObjects.cfg")], "thorough": [("objects", "MCObjects.tla", "MCObjects.cfg"), ("dual_c8a2", "MCDual.tla", "MCDual_c8a2.cfg")]},
             "rule": "the conversion steps of the object histories (see C11): after any chain the destination holds the value the DIRECT conversion gives (run-collapsed iff the target type or the operation normalises), widening/narrowing round trips, narrowing fails iff block hash 2 is longer than 32 and then leaves the destination as it was, text differs at most by run collapsing. non-trivial = history steps",
             "nontrivial": ("hist", "steps")},
     "C16": {"modes": ["ord"], "mc": {"quick": [("order", "MCOrder.tla", "MCOrder.cfg")], "thorough": [("order", "MCOrder.tla", "MCOrder.cfg")]},
@@ -242,8 +242,14 @@ def check_family(pid, tier, table, fam, module, cfg, violation):
         files += sorted(glob.glob(os.path.join(out, "*.ndjson")))
     for name, mod, c in cfgp["mc"][tier]:
         v.add_mc(run_mc(name, mod, c))
+    gen_stats = None
+    if cfgp.get("gen_direction"):
+        gfiles, gen_stats = gen_obj_behaviours(binp, pid, tier)
+        files += gfiles
     res = run_tv(module, cfg, files, timeout=3000)
-    v.add_tv(module + ":" + "+".join(cfgp["modes"]), res)
+    v.add_tv(module + ":" + "+".join(cfgp["modes"]) + ("+spec-generated" if gen_stats else ""), res)
+    if gen_stats:
+        v.cov["spec_generated"] = gen_stats
     cache = {}
     for r in res:
         if not r["accepted"]:
@@ -258,6 +264,52 @@ def check_family(pid, tier, table, fam, module, cfg, violation):
     v.cov["samples"] = [json.dumps(e)[:500] for e in evs[:3]]
     v.assumptions = ["TLC/SANY 1.8.0, CommunityModules", "Text.tla / BlockHash.tla / Order.tla / Dual.tla transcribe the property statements (grammar, run collapsing, documented order, RLE canonical form)", "the harness only serialises what the API returned"]
     return v.finish()
+
+
+def gen_obj_behaviours(binp, pid, tier):
+    """The other direction of the binding (C11 / C15): TLC walks the object slot machine itself
+    (GenObj.tla, -simulate), each behaviour is replayed on real objects by the harness, and the
+    recorded trace goes through the same validation as the driver's own histories."""
+    import re, subprocess
+    # the operation table of the generator specification must be the harness's
+    p = subprocess.run([binp, "obj", "optable"], stdout=subprocess.PIPE, stderr=subprocess.PIPE, text=True)
+    if p.returncode != 0:
+        raise ToolError("harness obj optable failed")
+    impl_ops = [tuple(x) for x in json.loads(p.stdout)]
+    text = open(os.path.join(SPEC, "GenObj.tla")).read()
+    body = text[text.index("Ops == <<"):text.index("(* ---- the pool")]
+    spec_ops = [tuple(m) for m in re.findall(r'<<"([a-z_]+)", "([A-Z]{2})", "([A-Z]{2})">>', body)]
+    if impl_ops != spec_ops:
+        raise ToolError("GenObj.tla Ops differs from the harness's OPS table (%d vs %d entries)" % (len(spec_ops), len(impl_ops)))
+    num = 300 if tier == "quick" else 6000
+    r = run_mc("genobj", "GenObj.tla", "GenObj.cfg", simulate="num=%d -depth 40" % num, workers=1, keep_output=True)
+    beh = []
+    for l in r["output"].splitlines():
+        if l.startswith('"REPLAY '):
+            beh.append(json.loads(l.strip()[1:-1][len("REPLAY "):].replace('\\"', '"').replace("\\\\", "\\")))
+    if len(beh) < num:
+        raise ToolError("GenObj produced %d behaviours, expected %d" % (len(beh), num))
+    out = fresh_dir("tr_%s_genobj" % pid)
+    nsh = TV_PAR
+    files = []
+    nops = 0
+    kinds = set()
+    for i in range(nsh):
+        inp = os.path.join(out, "in_%02d.ndjson" % i)
+        with open(inp, "w") as f:
+            for b in beh[i::nsh]:
+                f.write(json.dumps({"ev": "hnew", "unit": 1}) + "\n")
+                for e in b:
+                    f.write(json.dumps(dict(e, ev="op")) + "\n")
+                    nops += 1
+                    kinds.add(e["op"])
+        od = os.path.join(out, "o%02d" % i)
+        run_harness(binp, ["replay", "obj", inp, "--out", od])
+        fs = [x for x in sorted(glob.glob(os.path.join(od, "*.ndjson"))) if os.path.getsize(x) > 0]
+        if not fs:
+            raise ToolError("the replay of spec-generated behaviours produced no events")
+        files += fs
+    return files, {"behaviours": len(beh), "operations": nops, "distinct_operation_kinds": len(kinds), "states_generated_by_tlc": r.get("generated", 0)}
 
 
 def check_obj(pid, tier):
